@@ -21,6 +21,7 @@ static std::string* g_fault;
 struct Obj : public RefCount::Object
 {
   int id;
+  RefCount::Ptr<Obj> next;      // objects may hold handles themselves (lists, trees): releasing one can release others
   Obj(int i) : id(i) { vf::Untrack u; g_alive->insert(id); }
   ~Obj() { vf::Untrack u; if(!g_alive->count(id)) { if(g_fault->empty()) *g_fault = vf::fmt("object %d destroyed twice", id); } g_alive->erase(id); id = -777; }
 };
@@ -34,10 +35,22 @@ struct H
   P* h[3]; PD* hd;
   int m[3], md;          // designated object id, 0 = null
   int nextId;
+  std::map<int, int> nx;  // object id -> id designated by its 'next' handle (0 / absent = null)
   std::set<int> alive; std::string fault;
   struct Op { int kind, x, y; };
   std::vector<Op> ops; bool opsValid;
-  enum { ASSIGNNEW, ASSIGNNEWDERIVED, ASSIGN, ASSIGNNULL, ASSIGNRAW, COPYCTOR, CONVCOPY, CONVASSIGN, SWAP, RECREATE, DROPDERIVED, ROT };
+  enum { ASSIGNNEW, ASSIGNNEWDERIVED, ASSIGN, ASSIGNNULL, ASSIGNRAW, COPYCTOR, CONVCOPY, CONVASSIGN, SWAP, RECREATE, DROPDERIVED, ROT,
+         LINK, UNLINK, ADVANCE, ADVANCERAW, ADVANCECOPY };
+  int nextOf(int id) { std::map<int, int>::iterator i = nx.find(id); return i == nx.end() ? 0 : i->second; }
+  bool reaches(int from, int to) { for(int g = 0; from && g < 100; ++g, from = nextOf(from)) if(from == to) return true; return false; }
+  std::set<int> wanted()
+  {
+    std::set<int> want;
+    int roots[4] = {m[0], m[1], m[2], md};
+    for(int i = 0; i < 4; ++i) for(int id = roots[i], g = 0; id && g < 100 && !want.count(id); ++g, id = nextOf(id)) want.insert(id);
+    return want;
+  }
+  void prune() { std::set<int> w = wanted(); for(std::map<int, int>::iterator i = nx.begin(); i != nx.end();) if(!w.count(i->first)) nx.erase(i++); else ++i; }
 
   H(const Cfg& c) : cfg(c), md(0), nextId(1), opsValid(false)
   {
@@ -50,7 +63,13 @@ struct H
   void buildOps()
   {
     ops.clear();
-    add(ASSIGNNEW); add(ASSIGNNEWDERIVED);
+    if((int)wanted().size() < cfg.maxNodes) { add(ASSIGNNEW); add(ASSIGNNEWDERIVED); }
+    if(m[0])
+    {
+      for(int j = 0; j < 3; ++j) if(m[j] && !reaches(m[j], m[0])) add(LINK, j);     // no cycles: they are leaks by design of reference counting
+      if(nextOf(m[0])) { add(UNLINK); add(ADVANCERAW); }
+      add(ADVANCE); add(ADVANCECOPY);
+    }
     for(int j = 0; j < 3; ++j) add(ASSIGN, j);
     add(ASSIGNNULL);
     for(int j = 0; j < 3; ++j) if(m[j]) add(ASSIGNRAW, j);
@@ -64,7 +83,8 @@ struct H
   int nops() { if(!opsValid) buildOps(); return (int)ops.size(); }
   static const char* kindName(int k)
   {
-    static const char* n[] = {"h0=new Obj", "hd=new Derived;h0=hd", "h0=h", "h0=null", "h0=rawPointerOf h", "h0=Ptr(h)", "h0=Ptr<Obj>(hd)", "h0=hd", "h0.swap(h)", "destroy+recreate h0", "hd=null", "rotate"};
+    static const char* n[] = {"h0=new Obj", "hd=new Derived;h0=hd", "h0=h", "h0=null", "h0=rawPointerOf h", "h0=Ptr(h)", "h0=Ptr<Obj>(hd)", "h0=hd", "h0.swap(h)", "destroy+recreate h0", "hd=null", "rotate",
+      "h0->next=h", "h0->next=null", "h0=h0->next", "h0=rawPointerOf h0->next", "h0=Ptr(h0->next)"};
     return n[k];
   }
   std::string opname(int i) { if(!opsValid) buildOps(); return vf::fmt("%s%d {h0->%d h1->%d h2->%d hd->%d}", (std::string(kindName(ops[i].kind)) + (ops[i].y ? "(reversed receiver)" : "")).c_str(), ops[i].x, m[0], m[1], m[2], md); }
@@ -89,15 +109,19 @@ struct H
     case RECREATE: LIB(delete h[0]); LIB(h[0] = new P()); m[0] = 0; break;
     case DROPDERIVED: LIB(*hd = (Derived*)0); md = 0; break;
     case ROT: std::swap(h[0], h[o.x]); std::swap(m[0], m[o.x]); break;
+    case LINK: { P& b = *h[o.x]; LIB(a->next = b); nx[m[0]] = m[o.x]; break; }
+    case UNLINK: LIB(a->next = (Obj*)0); nx.erase(m[0]); break;
+    case ADVANCE: { int t = nextOf(m[0]); LIB(a = a->next); m[0] = t; break; }                       // the argument lives inside the object that may be released
+    case ADVANCERAW: { int t = nextOf(m[0]); Obj* raw = a->next.operator->(); LIB(a = raw); m[0] = t; break; }
+    case ADVANCECOPY: { int t = nextOf(m[0]); P* n = 0; LIB(n = new P(a->next)); LIB(delete h[0]); h[0] = n; m[0] = t; break; }
     }
+    prune();
     verify(kindName(o.kind));
   }
   void verify(const char* after)
   {
     VF_CHECK(fault.empty(), "C09:Ptr:double-destruction", "after %s: %s", after, fault.c_str());
-    std::set<int> want;
-    for(int i = 0; i < 3; ++i) if(m[i]) want.insert(m[i]);
-    if(md) want.insert(md);
+    std::set<int> want = wanted();
     for(std::set<int>::iterator it = want.begin(); it != want.end(); ++it)
       VF_CHECK(alive.count(*it), "C09:Ptr:released-while-referenced", "after %s: object %d was destroyed although a handle still designates it", after, *it);
     for(std::set<int>::iterator it = alive.begin(); it != alive.end(); ++it)
@@ -106,10 +130,16 @@ struct H
     {
       VF_CHECK((bool)*h[i] == (m[i] != 0), "C09:Ptr:null-state", "after %s: handle %d null state wrong", after, i);
       if(m[i]) VF_CHECK((*h[i])->id == m[i], "C09:Ptr:designates", "after %s: handle %d designates object %d, reference %d", after, i, (*h[i])->id, m[i]);
+      if(m[i] && alive.count(m[i]))
+      {
+        int t = nextOf(m[i]);
+        VF_CHECK((bool)(*h[i])->next == (t != 0) && (!t || (*h[i])->next->id == t), "C09:Ptr:designates", "after %s: the next handle of object %d does not designate object %d", after, m[i], t);
+      }
 #ifdef VF_INTERNALS
       if(m[i])
       {
         int cnt = 0; for(int j = 0; j < 3; ++j) if(m[j] == m[i]) ++cnt; if(md == m[i]) ++cnt;
+        for(std::map<int, int>::iterator k = nx.begin(); k != nx.end(); ++k) if(k->second == m[i]) ++cnt;
         VF_CHECK((int)h[i]->refObj->ref == cnt, "C09:Ptr:refcount", "after %s: object %d has reference count %d but %d handle(s)", after, m[i], (int)h[i]->refObj->ref, cnt);
       }
 #endif
@@ -121,7 +151,18 @@ struct H
   {
     std::map<int, int> rel; std::string s = "P";
     int ids[4] = {m[0], m[1], m[2], md};
-    for(int i = 0; i < 4; ++i) { if(ids[i] && !rel.count(ids[i])) { int r = (int)rel.size() + 1; rel[ids[i]] = r; } s += vf::fmt("%d,", ids[i] ? rel[ids[i]] : 0); }
+    for(int i = 0; i < 4; ++i)
+    { // handle target, then the chain hanging off it (objects are named in order of first appearance)
+      s += '|';
+      for(int id = ids[i], g = 0; g < 100; ++g, id = nextOf(id))
+      {
+        if(!id) { s += "0"; break; }
+        bool known = rel.count(id) != 0;
+        if(!known) { int r = (int)rel.size() + 1; rel[id] = r; }
+        s += vf::fmt("%d>", rel[id]);
+        if(known) break;
+      }
+    }
     return s;
   }
   void finish()
@@ -159,7 +200,7 @@ struct H
   XV* v[3]; MV m[3];
   struct Op { int kind, x; };
   std::vector<Op> ops; bool opsValid;
-  enum { CLEAR, SETTEXT, SETELEM, ASSIGN, COPYCTOR, MUTNAME, MUTADDCHILD, MUTONLY, CHILDMUT, ROT };
+  enum { CLEAR, SETTEXT, SETELEM, ASSIGN, COPYCTOR, MUTNAME, MUTADDCHILD, MUTONLY, CHILDMUT, ROT, ASSIGNCHILD };
 
   H(const Cfg& c) : cfg(c), opsValid(false)
   {
@@ -177,13 +218,14 @@ struct H
     add(MUTNAME); add(MUTONLY);
     for(int j = 1; j < 3; ++j) { MV e = asElem(m[0]); e.kids.push_back(m[j]); if(e.nodes() <= cfg.maxNodes) add(MUTADDCHILD, j); }
     if(m[0].kind == 2 && !m[0].kids.empty() && m[0].kids[0].kind == 2) add(CHILDMUT);
+    if(m[0].kind == 2 && !m[0].kids.empty()) add(ASSIGNCHILD);
     add(ROT, 1); add(ROT, 2);
     opsValid = true;
   }
   int nops() { if(!opsValid) buildOps(); return (int)ops.size(); }
   static const char* kindName(int k)
   {
-    static const char* n[] = {"clear", "assignText", "assignElement", "assignFrom", "copyConstructFrom", "toElement().type=", "toElement().content.append", "toElement()", "toElement().content.front().toElement().type=", "rotate"};
+    static const char* n[] = {"clear", "assignText", "assignElement", "assignFrom", "copyConstructFrom", "toElement().type=", "toElement().content.append", "toElement()", "toElement().content.front().toElement().type=", "rotate", "assignFromOwnFirstChild"};
     return n[k];
   }
   std::string opname(int i) { if(!opsValid) buildOps(); return vf::fmt("x0.%s(%d) {x0=%s x1=%s x2=%s}", kindName(ops[i].kind), ops[i].x, m[0].str().c_str(), m[1].str().c_str(), m[2].str().c_str()); }
@@ -207,6 +249,14 @@ struct H
     case MUTADDCHILD: { MV arg = m[o.x]; XV& b = *v[o.x]; LIB(a.toElement().content.append(b)); ma = asElem(ma); ma.kids.push_back(arg); break; }
     case CHILDMUT: { { vf::Track t_; a.toElement().content.front().toElement().type = String("c"); } ma.kids[0].name = "c"; break; }
     case ROT: std::swap(v[0], v[o.x]); std::swap(m[0], m[o.x]); break;
+    case ASSIGNCHILD:
+    { // the source lives inside the value that the assignment releases (unless it is shared)
+      const XV& child = ((const XV&)a).toElement().content.front();
+      MV keep = ma.kids[0];
+      LIB(a = child);
+      ma = keep;
+      break;
+    }
     }
     verify(kindName(o.kind));
   }
